@@ -556,7 +556,7 @@ func (x *Exec) runBody(fr *Frame, entry *State) {
 		// vacuity guard: a block entered shortly after a modelled or contracted
 		// call must be reachable (a model whose success case contradicts the
 		// representation invariants would make everything after it vacuous)
-		if x.coverBudget > 0 && x.blockCovers < 40 && !fr.inline && len(b.Preds) > 0 && !x.declaredDead(fr, b) {
+		if (x.coverBudget > 0 || thoroughTier) && (x.blockCovers < 40 || thoroughTier) && !fr.inline && len(b.Preds) > 0 && !x.declaredDead(fr, b) {
 			x.coverBudget--
 			x.blockCovers++
 			o := x.obligation(st, "cover", fmt.Sprintf("%s:block#%d:cover", x.fname(fr), b.Index), TFalse, fnProps(fr), "block "+b.Comment+" reachable", "")
@@ -1115,3 +1115,6 @@ func (x *Exec) declaredDead(fr *Frame, b *ssa.BasicBlock) bool {
 	}
 	return false
 }
+
+// thoroughTier: every block of every function under contract gets a reachability cover
+var thoroughTier bool
